@@ -14,7 +14,9 @@ CLAIMS = {
        'out=, SciPy overwrite_a / _b / _x, shuffle; numbers given as 0-d arrays) reaches storage that may belong to an argument, and no returned '
        'array/list may share storage with an argument; the documented exceptions (inplace flag, info/cache '
        'dictionaries, pass-through helpers) are an explicit table and the in-place footprint is checked to '
-       'be exactly two adjacent cores. Every entry variant is run a second time with the other documented kind of each argument (mode sizes as an '
+       'be exactly two adjacent cores. No function modifies a module-level object, wraps a package function in a module-level memo, modifies a mutable default '
+       '(other than the documented info / cache dictionaries), remembers a result on the object regardless of further parameters, or '
+       'keeps a memo table whose key omits a varying item the value reads. Every entry variant is run a second time with the other documented kind of each argument (mode sizes as an '
        'ndarray, numbers as 0-d arrays, integers as NumPy integers): same purity rules, plus truth / membership tests that '
        'only work for the list kind and inputs that are then rejected on every path. This is the whole property except '
        'the trust in the NumPy view-vs-copy table.',
@@ -28,7 +30,8 @@ CLAIMS = {
        'generator parameter bound to one at every call site; seeded functions forward their seed; mutable '
        'default arguments are reset at entry for every key that is read; no np.empty buffer is filled only '
        'conditionally and then used whole; perf_counter values reach only info["t"] / log text; no set '
-       'iteration, hash() or id().',
+       'iteration, hash() or id(); no state survives a call (module-level objects modified by functions, module-level '
+       'memo wrappers, modified mutable defaults, parameter-blind attribute memos, under-keyed memo tables).',
   note='Not decided: bit-identity of NumPy/BLAS kernels across calls (trusted). numpy.random.Generator is '
        'assumed deterministic for a given seed.'),
 }
@@ -80,7 +83,8 @@ CLAIMS['C20'] = dict(
        'the right-hand side 1-/2-D (the defect that made the function raise for every input); contractions on the path '
        'are consistent where typed; the result is a list of d three-axis float cores; sample_tt returns '
        '(int [rows,d], [d+1], [d]) as the consumer expects; every mode index is fitted against its own rows (both least-squares operands vary with the loop over the mode index); the rank of the skeleton helper is max(1, min(cap, len - dropped)) as a value. '
-       'Truth tests of multi-element arrays in sample_tt (ndarray shape variant) are reported.',
+       'Truth tests of multi-element arrays in sample_tt (ndarray shape variant) are reported. '
+       'Every block compression of svd_incomplete is capped by the caller\'s r (1 at the end), and the cap parameter is not re-bound inside the sweep to a value that does not derive from it.',
   note='Not decided: recovery of the sampled tensor (numerical, generic), the block layout values.')
 
 CLAIMS['C01'] = dict(
@@ -141,7 +145,7 @@ CLAIMS['C03'] = dict(
        'svd / svd_matrix / full_matrix consistent; results well formed. '
        'Every factorisation of the TT-SVD sweep receives the caller\'s accuracy itself (same object / same default literal in the call log); no data-scaled quantity is compared with an absolute literal; flatten / ravel / reshape never follow memory order (order K / A).',
   note='Not decided: the error bound numerically, exact-rank reproduction, best-approximation property of the factor product. '
-       'The interleaving permutation tables are checked in the thorough tier only (bounded q).')
+       'The interleaving permutation tables are checked for q <= 6 (bounded).')
 CLAIMS['C04'] = dict(
   technique='orthogonality typestate per pivot + shape typing + abstract rejection paths + in-place footprint (alias facet) + exponent ledger',
   text='Decides the structural part only, for every pivot at d = 2,3: cores left of the pivot are reshaped reduced-QR Q factors '
@@ -150,7 +154,8 @@ CLAIMS['C04'] = dict(
        'pivots/modes raise ValueError and in-range ones do not (abstract execution of the guards for every literal index); the '
        'in-place variants store exactly two adjacent cores, the default ones none; with use_stab the exponent ledger closes and '
        'every sweep step rescales. '
-       'A valid pivot / mode given as a NumPy integer is accepted.',
+       'A valid pivot / mode given as a NumPy integer is accepted. '
+       'The same typestates hold for a tensor whose ranks are all 1.',
   note='Not decided: orthonormality to rounding, entries of moderate magnitude.')
 CLAIMS['C16'] = dict(
   technique='power-of-two exponent ledger as identities of linear forms over symbolic exponents (abstract interpretation)',
@@ -181,7 +186,8 @@ CLAIMS['C08'] = dict(
        're-masked in the same iteration and the maxvol rows are masked first; the carried squared row norms are updated to '
        'F - l v**2 (polynomial identity); the pivot division is behind the |B[i,j]| <= e '
        'break and the Sherman-Morrison factor divides by 1 + squared norm. '
-       'No absolute literal is compared with a quantity at the scale of the matrix (LU pivots).',
+       'No absolute literal is compared with a quantity at the scale of the matrix (LU pivots). '
+       'Every early exit of the maxvol swap loop implies |B[i, j]| <= e for the entry of largest modulus.',
   note='Not decided (the numerical core): A = B A[I], max|B| <= e, row-norm bound, distinctness as a value fact. The column '
        'growth of maxvol_rect is widened (shape of B only partly typed).')
 CLAIMS['C13'] = dict(
